@@ -41,6 +41,8 @@ pub const HOSTILE_DELIMS: &[(&str, &str)] = &[
 pub const WORDS: &[&str] = &[
     "foo();", "bar = 1", "x", "call(a, b)", "日本語 text", "é😀", "{", "}", "if (x) {", "return;", "k9", "z_9", "7", "q;", "let v = w", "// c", "# c",
     "end", "w.w, z", "ßü", "\"s\"", "'c'", "a=b", "skip", "unwrap-block",
+    // "words" made of non-ASCII / control white space: for chiritori these are ordinary non-blank text
+    "\u{3000}", "\u{a0}\u{a0}", "\u{c}",
 ];
 
 pub fn delim_chars(ds: &str, de: &str) -> Vec<char> {
